@@ -17,6 +17,7 @@ EXPLANATION = (
     "on every path to the return, every queued key is removed from `keys` (loop over the whole queue) and the queue is cleared; "
     "(NONE) apart from the empty-group return, Ready(None) is produced only under ended-counter == number of members read before the "
     "scan, with the counter initialised to 0 in this call. The history-level statement follows by induction; it is not enumerated.")
+EXPLANATION += (' (CTOR) with_capacity / new build slab, waker table, state table, capacity and the key-removal queue consistently; from_iter inserts every item of the whole iterator exactly once.')
 ASSUMPTIONS = [
     "slab::Slab / BTreeSet / SmallVec library models (live keys distinct; push/iter/clear act on the whole queue)",
     "the induction over operation histories is a paper argument from the per-operation obligations checked here",
